@@ -95,14 +95,21 @@ func (x *XferPipe) Reset() {
 
 // Append appends transfer filter by id.
 func (x *XferPipe) Append(filterID ...byte) error {
+	n := len(x.filters)
 	for _, id := range filterID {
 		filter, err := Get(id)
 		if err != nil {
+			// a refused Append leaves the pipe as it was
+			x.filters = x.filters[:n]
 			return err
 		}
 		x.filters = append(x.filters, filter)
 	}
-	return x.check()
+	if err := x.check(); err != nil {
+		x.filters = x.filters[:n]
+		return err
+	}
+	return nil
 }
 
 // AppendFrom appends transfer filters from a *XferPipe.
